@@ -7,6 +7,7 @@ with the same refusal answers.
 """
 from __future__ import annotations
 
+import json
 import numpy as np
 
 import runs
@@ -325,7 +326,107 @@ def seeded_bounds(ctx):
     return first
 
 
+def whole_update(ctx):
+    """Tie A for the COMPOSITION of one adaptive update (Tdgl/AdaptiveRun.lean `adaptiveStep`, driver op `astep`): real
+    `TDGLSolver.update` calls on a small driven film, with time steps large enough that the site equation is refused
+    naturally; every update is replayed on the model from the solver's own pre-state (order parameter, potential, tentative
+    step, history of the windowed mean, boundary data).  The sparse solve is external to the model: its answer is handed in.
+    Compared: the time step used (retry loop), the proposed next step and the recorded change (controller), the new order
+    parameter (Euler step + terminal re-imposition), supercurrent and normal current (observables); a raise must be a raise."""
+    import runs
+    from tdgl.solver.solver import TDGLSolver
+    from tdgl.solver.runner import RunningState
+
+    dev = zoo.make_device("bar", ctx.rng, max_edge_length=0.9 if ctx.quick else 0.7, gamma=10.0)
+    mesh = dev.mesh
+    n, E = len(mesh.sites), len(mesh.edge_mesh.edges)
+    cases = [dict(dt_init=1e-3, dt_max=5.0, window=3, mult=0.25, retries=10, tp=0.0, steps=10),
+             dict(dt_init=0.5, dt_max=5.0, window=2, mult=0.25, retries=10, tp=None, steps=8),
+             dict(dt_init=3.0, dt_max=5.0, window=3, mult=0.5, retries=12, tp=0.4, steps=8),
+             dict(dt_init=3.0, dt_max=3.0, window=3, mult=0.5, retries=1, tp=0.0, steps=3),      # the retries run out
+             dict(dt_init=2e-3, dt_max=2e-3, window=1, mult=0.25, retries=3, tp=0.0, steps=5, adaptive=False)]
+    if not ctx.quick:
+        cases += [dict(dt_init=1e-2, dt_max=50.0, window=5, mult=0.1, retries=6, tp=None, steps=25),
+                  dict(dt_init=1.0, dt_max=9.0, window=1, mult=0.7, retries=30, tp=1.0, steps=20)]
+    worst = dict(dt=0.0, tentative=0.0, delta=0.0, psi=0.0, js=0.0, jn=0.0)
+    for c in cases:
+        adaptive = c.get("adaptive", True)
+        opts = runs.options(solve_time=1.0, dt_init=c["dt_init"], dt_max=c["dt_max"], adaptive=adaptive, adaptive_window=c["window"],
+                            max_solve_retries=c["retries"], adaptive_time_step_multiplier=c["mult"], terminal_psi=c["tp"])
+        solver = TDGLSolver(device=dev, options=opts, applied_vector_potential=0.3, terminal_currents=dict(source=8.0, drain=-8.0))
+        tsites = np.asarray(solver.normal_boundary_index, dtype=int)
+        mask = np.zeros(n, dtype=int)
+        if c["tp"] is not None:
+            mask[tsites] = 1
+        A = np.asarray(solver.current_A_applied)
+        theta = np.einsum("ij, ij -> i", A, mesh.edge_mesh.directions)
+        eps = np.asarray(solver.epsilon, dtype=float) * np.ones(n)
+        vals = [solver.psi_init, solver.mu_init, np.zeros(E), np.zeros(E), np.zeros((E, 2))]
+        sizes = {"dt": 1}
+        if solver.probe_points is not None:
+            sizes.update(mu=len(solver.probe_points), theta=len(solver.probe_points))
+        rs = RunningState(sizes, 1)
+        t, dtp = 0.0, opts.dt_init
+        lines, want = [zoo.mesh_line(mesh)], []
+        for i in range(c["steps"]):
+            pre = dict(psi=np.array(vals[0], dtype=complex), mu=np.array(vals[1], dtype=float), tentative=float(solver.tentative_dt), hist=[float(x) for x in solver.d_psi_sq_vals])
+            try:
+                res = solver.update({"step": i, "time": t, "dt": dtp}, rs, dtp, psi=vals[0], mu=vals[1], supercurrent=vals[2], normal_current=vals[3], induced_vector_potential=vals[4])
+            except RuntimeError as e:
+                if "failed to converge" not in str(e):
+                    raise
+                res = None
+            mb = np.asarray(solver.mu_boundary, dtype=float)  # boundary data of THIS update (set at its start)
+            tp = "-" if c["tp"] is None else f"{V.bits(float(np.real(c['tp'])))},{V.bits(float(np.imag(c['tp'])))}"
+            mu_new = np.zeros(n) if res is None else np.asarray(res[2], dtype=float)
+            lines.append(f"astep {V.bits(solver.gamma)} {V.bits(solver.u)} {V.bits(opts.dt_init)} {V.bits(opts.dt_max)} {int(adaptive)} {c['window']} {V.bits(c['mult'])} {c['retries']} {i} "
+                         f"{V.bits(pre['tentative'])} {tp} | " + " ".join(map(str, mask)) + f" | {zoo.fl(theta)} | {zoo.cfl(pre['psi'])} | {zoo.fl(pre['mu'])} | {zoo.fl(eps)} | {zoo.fl(mb)} | "
+                         f"{zoo.fl(np.array(pre['hist']))} | {zoo.fl(mu_new)}")
+            if res is None:
+                want.append(None)
+                ctx.count("whole_updates_raising")
+                break
+            dtp, *vals = res
+            t += dtp
+            want.append(dict(dt=float(dtp), tentative=float(solver.tentative_dt), hist=[float(x) for x in solver.d_psi_sq_vals], psi=np.array(vals[0]), js=np.array(vals[2]), jn=np.array(vals[3]),
+                             retried=float(dtp) != pre["tentative"]))
+        out = V.driver(lines)[1:]
+        ctx.traces += 1
+        for i, (w, o) in enumerate(zip(want, out)):
+            tag = dict(case={k: v for k, v in c.items()}, step=i, sites=n)
+            ctx.case(("whole-update", json.dumps(c, sort_keys=True, default=str), i), nontrivial=True)
+            ctx.count("whole_updates_replayed_on_the_model")
+            if w is None or o == "raise":
+                ctx.corr(w is None and o == "raise", "whole update: the model raises exactly when TDGLSolver.update raises (retries exhausted / refusal with adaptivity off)", dict(tag, model=o[:40], impl="raise" if w is None else "answered"))
+                continue
+            if w["retried"]:
+                ctx.count("whole_updates_with_natural_retries")
+            secs = o.split("|")
+            h = secs[0].split()
+            m_dt, m_tent, m_d, m_len = V.unbits(h[0]), V.unbits(h[1]), V.unbits(h[2]), int(h[3])
+            rel = lambda a, b_: abs(a - b_) / max(abs(b_), 1e-300)
+            ctx.corr(m_dt == w["dt"], "whole update: time step used (retry loop) is bit-identical", dict(tag, model=m_dt, impl=w["dt"]))
+            worst["dt"] = max(worst["dt"], rel(m_dt, w["dt"]))
+            ctx.corr(m_len == len(w["hist"]), "whole update: one entry of the windowed-mean history per update (none when adaptivity is off)", dict(tag, model=m_len, impl=len(w["hist"])))
+            if w["hist"]:
+                worst["delta"] = max(worst["delta"], abs(m_d - w["hist"][-1]) / max(abs(w["hist"][-1]), 1e-6))
+            worst["tentative"] = max(worst["tentative"], rel(m_tent, w["tentative"]))
+            mp = np.array([V.unbits(x) for x in secs[1].split()]).reshape(-1, 2)
+            mp = mp[:, 0] + 1j * mp[:, 1]
+            worst["psi"] = max(worst["psi"], float(np.abs(mp - w["psi"]).max() / max(np.abs(w["psi"]).max(), 1e-300)))
+            if c["tp"] is not None and len(tsites):
+                ctx.corr(bool((mp[tsites] == c["tp"]).all() and (w["psi"][tsites] == c["tp"]).all()), "whole update: terminal sites carry exactly the terminal value in model and implementation", tag)
+            mj = np.array([V.unbits(x) for x in secs[2].split()])
+            mn = np.array([V.unbits(x) for x in secs[3].split()])
+            worst["js"] = max(worst["js"], float(np.abs(mj - w["js"]).max() / max(np.abs(w["js"]).max(), 1e-12)))
+            worst["jn"] = max(worst["jn"], float(np.abs(mn - w["jn"]).max() / max(np.abs(w["jn"]).max(), 1e-12)))
+    for k, v in worst.items():
+        ctx.tol(f"whole update (Lean adaptiveStep, Float) vs TDGLSolver.update: {k} (rel)", v, 1e-8)
+    ctx.corr(all(v <= 1e-8 for v in worst.values()), "whole update (adaptiveStep): step, proposal, recorded change, psi, supercurrent, normal current agree with TDGLSolver.update", dict(worst=worst))
+
+
 def run(ctx):
+    whole_update(ctx)
     seeded_bounds(ctx)
     screened(ctx)
     pinned_nonzero(ctx)
